@@ -28,6 +28,8 @@ for d in sorted(glob.glob("/verif/seeded/*/")):
     if meta.get("outside_property") and not det:
         rows.append("| %s | not judged - outside the property as worded | n/a | %s |" % (name, title))
         continue
+    if meta.get("neutralised_by"):
+        when += "; no longer breaks the property since fix %s" % meta["neutralised_by"]["commit"]
     rows.append("| %s | %s | %s | %s |" % (name, ", ".join(det) or "MISSED", when, title))
 table = ["| seed | detected by (quick tier) | when | what the seeded change is |", "|---|---|---|---|"] + rows
 src = open("/verif/DESIGN.md").read().split("\n")
